@@ -231,6 +231,7 @@ type gate struct {
 	inner    locations.StorageLocation
 	mu       sync.Mutex
 	gated    bool
+	loseRm   bool // Remove calls are observed but never reach the storage (the process dies before they land)
 	dead     bool
 	writes   []*call
 	removes  []*call
@@ -301,11 +302,14 @@ func (g *gate) Remove(paths ...string) error {
 	if !g.park(c) {
 		return nil
 	}
-	err := g.inner.Remove(paths...)
 	g.mu.Lock()
+	lose := g.loseRm
 	g.removed = append(g.removed, c.ids)
 	g.mu.Unlock()
-	return err
+	if lose {
+		return nil
+	}
+	return g.inner.Remove(paths...)
 }
 func (g *gate) Read(path string) ([]byte, error)  { return g.inner.Read(path) }
 func (g *gate) List() iter.Seq2[string, error]    { return g.inner.List() }
